@@ -2380,7 +2380,9 @@ func trCall(c *ast.CallExpr, en env) []val {
 		}
 		if ok {
 			if o.effect != "" {
-				requireHeld(c.Pos(), en, "call of "+fn)
+				if !o.ownLock {
+					requireHeld(c.Pos(), en, "call of "+fn)
+				}
 				var args []string
 				if o.args != nil && containsInt(o.args, -1) {
 					args = append(args, atom(trExpr(c.Fun.(*ast.SelectorExpr).X, en).lean))
@@ -3186,6 +3188,9 @@ func mapUpdate(en *env, mexpr ast.Expr, key ast.Expr, newVal string, replaced bo
 	if !ok || m.kd.k != "map" || cur == nil || !(cur.isState(r) || isLocal) {
 		fail(pos, "update of %s, which is not a map-valued state field or local map", r)
 	}
+	if cur.isState(r) {
+		requireHeld(pos, *en, "write of "+r)
+	}
 	if replaced {
 		// m[k] = p: pointers read from the map before keep pointing at the old structs
 		forkEntries(en, r)
@@ -3341,6 +3346,7 @@ func trAssign(a *ast.AssignStmt, en env) env {
 		case *ast.SelectorExpr:
 			r := render(lv)
 			if cur != nil && cur.isState(r) {
+				requireHeld(a.Pos(), en, "write of "+r)
 				en.vars[r] = vals[i]
 				break
 			}
@@ -3711,6 +3717,7 @@ func trStmts(list []ast.Stmt, en env, k cont) string {
 				if !ok || m.kd.k != "map" || !cur.isState(r) {
 					fail(c.Pos(), "delete from %s", r)
 				}
+				requireHeld(c.Pos(), en, "delete from "+r)
 				k := trExpr(c.Args[1], en)
 				e1 := en.clone()
 				forkEntries(&e1, r)
